@@ -94,10 +94,10 @@ def observable (ns : Nests) : Bool :=
   | some mapped => (mapTable mapped).isSome
   | none => false
 
-/-- decidable domain of `Thm.C14.names_agree` (acyclic table, jar with classes, every nest kept by the filter), restricted
-to what the harness can observe -/
+/-- decidable domain of `Thm.C14.names_agree` (acyclic table, jar with classes, every nest kept by the filter as the property
+states it: `keptSpec`, equal to the filter of the code by `filter_spec`), restricted to what the harness can observe -/
 def namesAgreeDomain (jar : Jar) (ns : Nests) : Bool :=
-  (mapTable ns).isSome && (minVersion (classesOf jar)).isSome && allApply jar ns &&
+  (mapTable ns).isSome && (minVersion (classesOf jar)).isSome && decide (keptSpec jar ns = ns) &&
   (tableNames ns ++ (classesOf jar).map (·.name)).all cleanName && observable ns
 
 /-- `oracle-nest-jar-spec`: `filter_spec`, `attrs_spec`, `created_enclosing_partial`, `nothing_else` evaluated on one input.
@@ -232,7 +232,9 @@ def handleC14 (op : String) (args : List Sexp) : Option Ans :=
       else match jarName jar ns c with | some r => .ok (ofJStr r) | none => .err "e")
   | "nest-name-map", [ns, c] => do
     let ns ← nestsFrom ns; let c ← toJStr? c
-    pure (match mapName ns c with | some r => .ok (ofJStr r) | none => .err "e")
+    pure (match mapName ns c with
+      | none => .err "e"
+      | some r => if observable ns then .ok (ofJStr r) else .skip "unobservable")
   | "nest-name-map-unguarded", [ns, c] => do
     let ns ← nestsFrom ns; let _ ← toJStr? c
     pure (if (mapTable ns).isNone then .err "e" else .ok (tag "terminated"))
@@ -256,6 +258,8 @@ def handleC14 (op : String) (args : List Sexp) : Option Ans :=
     let ns ← nestsFrom ns; let m ← mappingsFrom m
     pure (if !(wfMappings m && undoApplyDomain m ns) then .ok (tag "out-of-domain")
       else match applyNests m ns with
+        -- a set the model cannot nest is outside. The harness answers `fail apply_err` instead when the request alone shows
+        -- that nesting must succeed (`spec_apply_must_succeed`, a sufficient condition): never the case when the model errs
         | .error _ => .ok (tag "out-of-domain")
         | .ok m1 =>
           match undoNests m1 ns with
